@@ -29,10 +29,13 @@ def extra(ctx, res):
         "K-UNIQ": "the no-repeats guard of a weighted batch ranges over (time, edge) records, not over node tuples",
         "P-ABSENT": "snapshot completion adds a node under the negated membership test",
     })
-    RC.check_time_validation(ctx, res)
+    with res.guard("RC.check_time_validationctx, res"):
+        RC.check_time_validation(ctx, res)
     for m in ("get_edges", "subhypergraph", "aggregate"):
-        M.check_window(ctx, res, f"{cls}.{m}")
-    check_uniq(ctx, res, cls, "TIME")
+        with res.guard("M.check_windowctx, res, fcls.m"):
+            M.check_window(ctx, res, f"{cls}.{m}")
+    with res.guard("check_uniqctx, res, cls, TIME"):
+        check_uniq(ctx, res, cls, "TIME")
     # snapshot completion: add_node guarded by check_node must sit on the negated branch
     v = ctx.view(f"{cls}.subhypergraph")
     found = 0
@@ -58,7 +61,8 @@ def extra(ctx, res):
             res.add("P-ABSENT", v.fi.short, norm(n), "add-if-absent", verdict, why, loc(v.fi, n))
     if not found:
         raise AnalysisError("TemporalHypergraph.subhypergraph: no add_node call (anchor of P-ABSENT vanished)")
-    check_filter_clients(ctx, res, DEGREE[:2])
+    with res.guard("check_filter_clientsctx, res, DEGREE:2"):
+        check_filter_clients(ctx, res, DEGREE[:2])
     return res
 
 
